@@ -155,6 +155,14 @@ check("C17", "exploration",
       "Relational oracle over nine executions per case; independent ODS and XLSX producers.",
       "relational comparison of nine recorded executions per case + row model", "DESIGN.md 5/C17")
 
+check("C19", "exploration",
+      "CREATE TABLE statements are generated by the real SqlFactory for all four dialects from CIDs covering, exhaustively, every "
+      "Integer range over the boundary set +-(2^k + d) and, sampled, keyword / near-keyword names in three casings, Decimal "
+      "rules, length declarations and empty marks; the statement is parsed back and every column compared with the DDL model "
+      "(order, quoting, NOT NULL, integer interval of the column type contains both limits, decimal digits, text length).",
+      "Trusts the DDL model in cpverif/props/c19.py; ANSI int beyond 32 bit and open-ended ranges are unjudged.",
+      "output of the real generator parsed back and judged by a DDL model, exhaustive over the type-boundary set", "DESIGN.md 5/C19")
+
 NOT_YET = "check not built yet in this session; see DESIGN.md section 5 for the planned monitor"
 
 def main():
